@@ -168,6 +168,13 @@ def _decide(es, prim_eqs, prim_vars, inverter, A_full, b_full, cols_p, mon, deta
     x_p = np.linalg.solve(S, rhs)
     x = es.expand_schur_complement_solution(x_p)
     sc = max(float(np.max(np.abs(x_full))), 1e-12)
+    # a second expansion from the same assembly (line search, several right-hand sides):
+    # the stored secondary right-hand side must not have been consumed by the first one
+    x_again = es.expand_schur_complement_solution(x_p.copy())
+    mon.close("second_expansion_vs_full", x_again, x_full, TOL,
+              "second-expansion-from-one-assembly-differs-from-full-solution", scale=sc,
+              detail=detail)
+    mon.count("second_expansions_checked")
     mon.close("reduced_solution_vs_full", x_p, x_full[cols_p], TOL,
               "reduced-solution-differs-from-primary-part-of-full-solution", scale=sc,
               detail=detail)
